@@ -36,6 +36,8 @@ func ReplayTraceWorld(c *vf.Ctx, raw json.RawMessage, menus func(model string) f
 		menu = ComboMenu
 	case "merged":
 		menu = MergedMenu3
+	case "expiry":
+		menu = ExpiryMenu
 	}
 	if menu == nil {
 		c.HarnessError("unknown model %q", tc.Model)
